@@ -197,7 +197,9 @@ theorem inv_readData {v : Variant} (hv : v.actSorted = true) {d : Daemon} (h : I
       · exact inv_set_iness h2 i _ rfl rfl rfl
       · simpa using hi2
     · exact inv_set_iness h2 i _ rfl rfl rfl
-  · exact h2
+  · split
+    · exact inv_set_iness h2 i _ rfl rfl rfl
+    · exact h2
 
 theorem others_readData (v : Variant) (d : Daemon) (i : Id) : Others i d (readData v d i).1 := by
   unfold readData
@@ -208,7 +210,9 @@ theorem others_readData (v : Variant) (d : Daemon) (i : Id) : Others i d (readDa
   · split
     · exact Others.trans (Others.trans o2 (others_set i _ _)) (others_internalSuspend _ i)
     · exact Others.trans o2 (others_set i _ _)
-  · exact o2
+  · split
+    · exact Others.trans o2 (others_set i _ _)
+    · exact o2
 
 
 theorem internalSuspend_post (d : Daemon) (i : Id) (hi : i ∈ d.conns) :
@@ -244,7 +248,74 @@ theorem readData_post (v : Variant) {d : Daemon} (i : Id) (hi : i ∈ d.conns) (
       · refine Or.inr (Or.inr ⟨q, ?_⟩)
         rw [p.2]; simpa [suspRec] using hc2
     · exact Or.inl (by simpa using hi2)
-  · exact Or.inl hi2
+  · split
+    · exact Or.inl (by simpa using hi2)
+    · exact Or.inl hi2
+
+/-! ### a replying connection: send progress, completion -/
+
+theorem writeStep_cases (v : Variant) (d : Daemon) (i : Id) :
+    ∃ d1, (d1 = d ∨ d1 = updateLastActivity v d i) ∧
+      ((writeStep v d i).1 = d1 ∨ (writeStep v d i).1 = d1.set i (finishRec (d1.c i))) := by
+  unfold writeStep
+  dsimp only
+  by_cases hw : i ∈ d.wset
+  · refine ⟨updateLastActivity v d i, Or.inr rfl, ?_⟩
+    simp only [hw, if_true]
+    split
+    · exact Or.inr rfl
+    · exact Or.inl rfl
+  · refine ⟨d, Or.inl rfl, ?_⟩
+    simp only [hw, if_false]
+    split
+    · exact Or.inr rfl
+    · exact Or.inl rfl
+
+theorem inv_writeStep {v : Variant} (hv : v.actSorted = true) {d : Daemon} (h : Inv d) (i : Id) (hi : i ∈ d.conns) :
+    Inv (writeStep v d i).1 := by
+  obtain ⟨d1, h1, h2⟩ := writeStep_cases v d i
+  have hd1 : Inv d1 := by
+    rcases h1 with e | e <;> rw [e]
+    · exact h
+    · exact inv_updateLastActivity hv h i hi
+  rcases h2 with e | e <;> rw [e]
+  · exact hd1
+  · exact inv_set_iness hd1 i _ rfl rfl rfl
+
+theorem others_writeStep (v : Variant) (d : Daemon) (i : Id) : Others i d (writeStep v d i).1 := by
+  obtain ⟨d1, h1, h2⟩ := writeStep_cases v d i
+  have o1 : Others i d d1 := by
+    rcases h1 with e | e <;> rw [e]
+    · exact Others.refl i d
+    · exact others_updateLastActivity v d i
+  rcases h2 with e | e <;> rw [e]
+  · exact o1
+  · exact Others.trans o1 (others_set i d1 _)
+
+theorem writeStep_post (v : Variant) {d : Daemon} (i : Id) (hi : i ∈ d.conns) : i ∈ (writeStep v d i).1.conns := by
+  obtain ⟨d1, h1, h2⟩ := writeStep_cases v d i
+  have c1 : d1.conns = d.conns := by
+    rcases h1 with e | e <;> rw [e]
+    exact updateLastActivity_conns v d i
+  rcases h2 with e | e <;> rw [e]
+  · rw [c1]; exact hi
+  · simp only [set_conns]; rw [c1]; exact hi
+
+theorem inv_fastTrack {v : Variant} (hv : v.actSorted = true) {d : Daemon} (h : Inv d) (i : Id) (hi : IdleOk d i) :
+    Inv (fastTrack v d i).1 := by
+  unfold fastTrack
+  split
+  · rename_i hc
+    unfold seq2; dsimp only
+    exact inv_handleIdle (inv_writeStep hv h i hc.2.2) i (Or.inl (writeStep_post v i hc.2.2))
+  · exact inv_handleIdle h i hi
+
+theorem others_fastTrack (v : Variant) (d : Daemon) (i : Id) : Others i d (fastTrack v d i).1 := by
+  unfold fastTrack
+  split
+  · unfold seq2; dsimp only
+    exact Others.trans (others_writeStep v d i) (others_handleIdle _ i)
+  · exact others_handleIdle d i
 
 /-! ### call_handlers in the select loop, and the loop -/
 
@@ -259,10 +330,12 @@ theorem inv_callHandlersSel {v : Variant} (hv : v.actSorted = true) {d : Daemon}
   · exact inv_handleIdle h i (Or.inl hi)
   · rename_i hc
     split
-    · exact inv_handleIdle (inv_readData hv h i hi) i (readData_post v i hi (by simpa using hc))
+    · exact inv_handleIdle (inv_writeStep hv h i hi) i (Or.inl (writeStep_post v i hi))
     · split
-      · exact inv_handleIdle (inv_closeOther h i _) i (Or.inl (by simpa [closeOther] using hi))
-      · exact inv_handleIdleP h i (Or.inl hi)
+      · exact inv_fastTrack hv (inv_readData hv h i hi) i (readData_post v i hi (by simpa using hc))
+      · split
+        · exact inv_handleIdle (inv_closeOther h i _) i (Or.inl (by simpa [closeOther] using hi))
+        · exact inv_handleIdleP h i (Or.inl hi)
 
 theorem others_callHandlersSel0 (v : Variant) (d : Daemon) (i : Id) (r : Bool) : Others i d (callHandlersSel0 v d i r).1 := by
   unfold callHandlersSel0 seq2
@@ -270,10 +343,12 @@ theorem others_callHandlersSel0 (v : Variant) (d : Daemon) (i : Id) (r : Bool) :
   split
   · exact others_handleIdle d i
   · split
-    · exact Others.trans (others_readData v d i) (others_handleIdle _ i)
+    · exact Others.trans (others_writeStep v d i) (others_handleIdle _ i)
     · split
-      · exact Others.trans (others_closeOther d i _) (others_handleIdle _ i)
-      · exact others_handleIdleP d i
+      · exact Others.trans (others_readData v d i) (others_fastTrack v _ i)
+      · split
+        · exact Others.trans (others_closeOther d i _) (others_handleIdle _ i)
+        · exact others_handleIdleP d i
 
 theorem others_callHandlersSel (v : Variant) (d : Daemon) (i : Id) (r : Bool) : Others i d (callHandlersSel v d i r).1 :=
   Others.trans (others_callHandlersSel0 v d i r) (others_notePending v _ i i)
